@@ -60,7 +60,7 @@ structure InvN (s : State) : Prop where
   n4 : ∀ t c hb, (s.thr t).pc = .lock c hb → (s.thr t).snap = none → headKey (s.thr t).prog = some (halfKey (s.obj c).key hb)
   n5 : ∀ t c, (s.thr t).pc.holds = some c → inMap s c
   n5a : ∀ t c hb f, (s.thr t).pc = .cb c hb f → (s.obj c).both = false
-  n5b : ∀ t c, (s.thr t).pc = .rm c → (s.obj c).both = true
+  n5b : ∀ t c k, (s.thr t).pc = .rm c k → (s.obj c).both = true
   n7 : ∀ sid, s.kept sid = true → ncomp s.log sid = 0 →
         ∃ c, s.conns.get (s.skey sid) = some c ∧ (s.obj c).stream = some sid ∧ (s.obj c).both = false
   rs1 : ∀ sid t i k n, Ev.deliv sid t i k n ∈ s.log → sid < s.nextS ∧ (s.skey sid = k ∨ s.skey sid = k.rev)
@@ -94,7 +94,7 @@ theorem InvN.frame_benign {s s' : State} (h : InvN s) (t : Tid)
     (hn4 : ∀ c hb, (s'.thr t).pc = .lock c hb → (s'.thr t).snap = none → headKey (s'.thr t).prog = some (halfKey (s.obj c).key hb))
     (hn5 : ∀ c, (s'.thr t).pc.holds = some c → inMap s c)
     (hn5a : ∀ c hb f, (s'.thr t).pc = .cb c hb f → (s.obj c).both = false)
-    (hn5b : ∀ c, (s'.thr t).pc = .rm c → (s.obj c).both = true) : InvN s' := by
+    (hn5b : ∀ c k, (s'.thr t).pc = .rm c k → (s.obj c).both = true) : InvN s' := by
   obtain ⟨es, hes, hben⟩ := hlog
   have hnco : ∀ sid, ncomp s'.log sid = ncomp s.log sid := by
     intro sid
@@ -146,11 +146,11 @@ theorem InvN.frame_benign {s s' : State} (h : InvN s) (t : Tid)
     by_cases e : t' = t
     · subst e; exact hn5a c hb f hp
     · rw [hthr t' e] at hp; exact h.n5a t' c hb f hp
-  · intro t' c hp
+  · intro t' c k hp
     rw [hboth]
     by_cases e : t' = t
-    · subst e; exact hn5b c hp
-    · rw [hthr t' e] at hp; exact h.n5b t' c hp
+    · subst e; exact hn5b c k hp
+    · rw [hthr t' e] at hp; exact h.n5b t' c k hp
   · intro sid; rw [hkept, hnco, hskey, hconns]
     intro h1 h2
     obtain ⟨c, h3, h4, h5⟩ := h.n7 sid h1 h2
@@ -174,7 +174,7 @@ theorem invN_thr {s : State} (h : InvN s) (t : Tid) (th : Thread)
     (hn4 : ∀ c hb, th.pc = .lock c hb → th.snap = none → headKey th.prog = some (halfKey (s.obj c).key hb))
     (hn5 : ∀ c, th.pc.holds = some c → inMap s c)
     (hn5a : ∀ c hb f, th.pc = .cb c hb f → (s.obj c).both = false)
-    (hn5b : ∀ c, th.pc = .rm c → (s.obj c).both = true) : InvN (setThr s t th) := by
+    (hn5b : ∀ c k, th.pc = .rm c k → (s.obj c).both = true) : InvN (setThr s t th) := by
   apply h.frame_benign t <;> first
     | rfl
     | (intros; rfl)
@@ -330,11 +330,11 @@ theorem invN_new {s : State} (h : InvN s) (t : Tid) (th : Thread) (k : Key) (kin
     · subst e; simp [hthpc] at hpc
     · simp only [addLog_thr, setThr_thr, e, if_false] at hpc
       exact h.n5a t' c hb f hpc
-  · intro t' c hpc
+  · intro t' c kk hpc
     by_cases e : t' = t
     · subst e; simp [hthpc] at hpc
     · simp only [addLog_thr, setThr_thr, e, if_false] at hpc
-      exact h.n5b t' c hpc
+      exact h.n5b t' c kk hpc
   · intro sid hk hn
     have hl := hlt sid hk
     have hn' : ncomp s.log sid = 0 := by simpa using hn
@@ -533,12 +533,12 @@ theorem invN_reset {s s' : State} (h : InvN s) (t : Tid) (sid : SId) (k : Key) (
     · have hne := hptr_ne t' c e (Or.inl (by rw [hp]; rfl))
       rw [hthr t' e] at hp
       rw [hobj c hne]; exact h.n5a t' c hb fl hp
-  · intro t' c hp
+  · intro t' c kk hp
     by_cases e : t' = t
     · subst e; rw [htpc] at hp; cases hp
     · have hne := hptr_ne t' c e (Or.inl (by rw [hp]; rfl))
       rw [hthr t' e] at hp
-      rw [hobj c hne]; exact h.n5b t' c hp
+      rw [hobj c hne]; exact h.n5b t' c kk hp
   · intro sid' hk hn
     rw [hlog] at hn; rw [hskey]
     rcases hkept_imp sid' hk with e | hk'
@@ -561,7 +561,7 @@ theorem invN_close {s s' : State} (h : InvN s) (t : Tid) (c : CId) (sid : SId)
     (hnoins : ∀ sid', (s.thr t).pc ≠ .ins sid')
     (hexcl : ∀ t', t' ≠ t → (s.thr t').pc.holds ≠ some c)
     (hthr : ∀ t', t' ≠ t → s'.thr t' = s.thr t')
-    (htpc : (s'.thr t).pc = .rm c) (htsn : (s'.thr t).snap = (s.thr t).snap)
+    (cont : List Bool) (htpc : (s'.thr t).pc = .rm c cont) (htsn : (s'.thr t).snap = (s.thr t).snap)
     (hobj : ∀ c', c' ≠ c → s'.obj c' = s.obj c')
     (hkey : (s'.obj c).key = (s.obj c).key) (hstream : (s'.obj c).stream = (s.obj c).stream)
     (hboth : (s'.obj c).both = true)
@@ -646,12 +646,12 @@ theorem invN_close {s s' : State} (h : InvN s) (t : Tid) (c : CId) (sid : SId)
     · rw [hthr t' e] at hp
       have hne : c' ≠ c := fun e2 => hexcl t' e (by rw [hp, e2]; rfl)
       rw [hobj c' hne]; exact h.n5a t' c' hb fl hp
-  · intro t' c' hp
+  · intro t' c' kk hp
     by_cases e : t' = t
     · subst e; rw [htpc] at hp; cases hp; exact hboth
     · rw [hthr t' e] at hp
       have hne : c' ≠ c := fun e2 => hexcl t' e (by rw [hp, e2]; rfl)
-      rw [hobj c' hne]; exact h.n5b t' c' hp
+      rw [hobj c' hne]; exact h.n5b t' c' kk hp
   · intro sid' hk' hn'
     rw [hkept] at hk'; rw [hskey, hconns]
     have hne : sid' ≠ sid := by
@@ -674,10 +674,10 @@ theorem invN_close {s s' : State} (h : InvN s) (t : Tid) (c : CId) (sid : SId)
 
 /-- E8: `remove` — delete `conns[c.key]`, push `c` on `free`, release `c.mu`, go on. -/
 theorem invN_remove {s s' : State} (h : InvN s) (t : Tid) (c : CId)
-    (hpc : (s.thr t).pc = .rm c)
+    (cont : List Bool) (hpc : (s.thr t).pc = .rm c cont)
     (hexcl : ∀ t', t' ≠ t → (s.thr t').pc.holds ≠ some c)
     (hthr : ∀ t', t' ≠ t → s'.thr t' = s.thr t')
-    (hnpt : ∀ c', pointsTo (s'.thr t) c' → ∃ l, (s.thr t).snap = some l ∧ c' ∈ l)
+    (hnpt : ∀ c', pointsTo (s'.thr t) c' → c' = c ∨ ∃ l, (s.thr t).snap = some l ∧ c' ∈ l)
     (hnh : (s'.thr t).pc.holds = none) (hnins : ∀ sid, (s'.thr t).pc ≠ .ins sid)
     (hnl : ∀ c' hb, (s'.thr t).pc = .lock c' hb → (s'.thr t).snap ≠ none)
     (hkey : ∀ c', (s'.obj c').key = (s.obj c').key)
@@ -687,7 +687,7 @@ theorem invN_remove {s s' : State} (h : InvN s) (t : Tid) (c : CId)
     (hns : s'.nextS = s.nextS) (hskey : s'.skey = s.skey) (hkept : s'.kept = s.kept)
     (hlog : s'.log = s.log) : InvN s' := by
   have hin : inMap s c := h.n5 t c (by rw [hpc]; rfl)
-  have hcl : (s.obj c).both = true := h.n5b t c hpc
+  have hcl : (s.obj c).both = true := h.n5b t c cont hpc
   have hnf : c ∉ s.free := (h.n1 _ c hin).2
   have hget : ∀ k c', s'.conns.get k = some c' ↔ (k ≠ (s.obj c).key ∧ s.conns.get k = some c') := by
     intro k c'; rw [hconns, KMap.get_del]
@@ -743,8 +743,9 @@ theorem invN_remove {s s' : State} (h : InvN s) (t : Tid) (c : CId)
     apply hn3
     by_cases e : t' = t
     · subst e
-      obtain ⟨l, h1, h2⟩ := hnpt c' hp
-      exact h.n3 t' c' (Or.inr ⟨l, h1, h2⟩)
+      rcases hnpt c' hp with e1 | ⟨l, h1, h2⟩
+      · rw [e1]; exact Or.inl hin
+      · exact h.n3 t' c' (Or.inr ⟨l, h1, h2⟩)
     · rw [hthr t' e] at hp; exact h.n3 t' c' hp
   · intro t' c' hb hp hsn
     by_cases e : t' = t
@@ -761,11 +762,11 @@ theorem invN_remove {s s' : State} (h : InvN s) (t : Tid) (c : CId)
     by_cases e : t' = t
     · subst e; rw [hp] at hnh; cases hnh
     · rw [hthr t' e] at hp; exact h.n5a t' c' hb fl hp
-  · intro t' c' hp
+  · intro t' c' kk hp
     rw [hboth]
     by_cases e : t' = t
     · subst e; rw [hp] at hnh; cases hnh
-    · rw [hthr t' e] at hp; exact h.n5b t' c' hp
+    · rw [hthr t' e] at hp; exact h.n5b t' c' kk hp
   · intro sid hk hn
     rw [hkept] at hk; rw [hlog] at hn; rw [hskey]
     obtain ⟨c', h1, h2, h3⟩ := h.n7 sid hk hn
@@ -825,6 +826,22 @@ theorem invN_stepStart {s s' : State} {t : Tid} (hK : (KMap.keys s.conns).Nodup)
             · cases e1; simp [hv, e2]
           obtain ⟨k, hk⟩ := KMap.get_of_mem_vals hmem hK
           exact inMap_of_get h hk
+    | flushold T ca =>
+      simp only [hp] at hs
+      cases hv : s.conns.vals with
+      | nil => simp only [hv] at hs; cases hs; exact invN_finishOp h t
+      | cons c r =>
+        simp only [hv] at hs; cases hs
+        apply invN_thr h t <;> try (simp; done)
+        · intro c' hpt
+          left
+          have hmem : c' ∈ s.conns.vals := by
+            simp only [pointsTo, ptr_lock, Option.some.injEq] at hpt
+            rcases hpt with e | ⟨l, e1, e2⟩
+            · simp [hv, e]
+            · cases e1; simp [hv, e2]
+          obtain ⟨k, hk⟩ := KMap.get_of_mem_vals hmem hK
+          exact inMap_of_get h hk
     | pkt k kind =>
       simp only [hp] at hs
       cases hg : getHalf s.conns k with
@@ -855,6 +872,7 @@ theorem invN_stepIns {s s' : State} {t : Tid} {sid : SId} (hA : InvA s) (h : Inv
   | cons op rest =>
     cases op with
     | flush => simp [hp, isPkt] at hpk
+    | flushold T ca => simp [hp, isPkt] at hpk
     | pkt k kind =>
       simp only [hp] at hs
       have hhead : headKey (s.thr t).prog = some k := by rw [hp]; rfl
@@ -968,6 +986,195 @@ theorem excl_of_mu {s : State} (hA : InvA s) {t : Tid} {c : CId}
   · rw [h1] at this; cases this
   · rw [h1] at this; exact e (Option.some.inj this).symm
 
+theorem bothClosed_eq (o : Conn) : o.bothClosed = o.both := rfl
+theorem setQ_both (o : Conn) (hb : Bool) (q : Option Nat) : (o.setQ hb q).both = o.both := by
+  unfold Conn.setQ; split <;> rfl
+theorem see_both (o : Conn) (hb : Bool) (ts : Nat) : (o.see hb ts).both = o.both := by
+  unfold Conn.see; split <;> rfl
+theorem setQ_halfClosed (o : Conn) (hb hb' : Bool) (q : Option Nat) : (o.setQ hb q).halfClosed hb' = o.halfClosed hb' := by
+  unfold Conn.setQ; split <;> rfl
+theorem see_halfClosed (o : Conn) (hb hb' : Bool) (ts : Nat) : (o.see hb ts).halfClosed hb' = o.halfClosed hb' := by
+  unfold Conn.see; split <;> rfl
+
+/-- The restriction that excludes the SECOND defect (reassembly only): the un-nested remove of
+    FlushWithOptions (pc `rm2`) finds an entry stored under the visited connection's key — the
+    connection itself was taken out of the map when it was completed, so the entry belongs to another
+    connection created since, and `remove` deletes it and pushes the visited object on `free` again. -/
+def ForeignRemove (s : State) (t : Tid) : Prop :=
+  ∃ c, (s.thr t).pc = .rm2 c ∧ s.conns.get (s.obj c).key ≠ none
+
+/-- Restriction of the reassembly `_partial` theorems: neither a stale recycling nor a foreign remove. -/
+def Clean (s : State) (t : Tid) : Prop := NoStale s t ∧ ¬ ForeignRemove s t
+
+/-- an object `c` is replaced by a value with the same key / stream / both-closed flag -/
+theorem invN_setObj {s : State} (h : InvN s) (t : Tid) (c : CId) (o' : Conn)
+    (hnoins : ∀ sid, (s.thr t).pc ≠ .ins sid)
+    (hkey : o'.key = (s.obj c).key) (hstream : o'.stream = (s.obj c).stream) (hboth : o'.both = (s.obj c).both) :
+    InvN (setObj s c o') := by
+  apply h.frame_benign t
+  · intro t' _; rfl
+  · intro c'; simp only [setObj_obj]; split <;> simp_all
+  · intro c'; simp only [setObj_obj]; split <;> simp_all
+  · intro c'; simp only [setObj_obj]; split <;> simp_all
+  · rfl
+  · rfl
+  · rfl
+  · rfl
+  · rfl
+  · rfl
+  · exact ⟨[], rfl, by simp⟩
+  · exact hnoins
+  · exact h.n3 t
+  · exact h.n4 t
+  · exact h.n5 t
+  · exact h.n5a t
+  · exact h.n5b t
+
+/-- an open connection a thread points to is the map's entry for its key -/
+theorem inMap_of_open {s : State} (h : InvN s) {t : Tid} {c : CId} (hpt : pointsTo (s.thr t) c)
+    (hcl : (s.obj c).both = false) : inMap s c := by
+  rcases h.n3 t c hpt with h1 | h1
+  · exact h1
+  · have := h.n2 c h1; rw [hcl] at this; cases this
+
+/-- End of a Flush* visit: release `c.mu`; FlushWithOptions may go on to the un-nested remove. -/
+theorem invN_flushEnd {s1 : State} (h : InvN s1) (t : Tid) (c : CId)
+    (hptr : (s1.thr t).pc.ptr = some c) : InvN (flushEnd s1 t c) := by
+  have hadv : InvN (advance (setObj s1 c { s1.obj c with mu := none }) t) := by
+    apply invN_advance h t
+    · rfl
+    · intro c'; simp only [setObj_obj]; split <;> simp_all
+    · intro c'; simp only [setObj_obj]; split <;> simp_all
+    · intro c'; simp only [setObj_obj]; split <;> simp_all [Conn.both]
+    · rfl
+    · rfl
+    · rfl
+    · rfl
+    · rfl
+    · rfl
+    · exact ⟨[], rfl, by simp⟩
+  unfold flushEnd
+  dsimp only
+  split
+  · exact hadv
+  · split
+    · apply h.frame_benign t
+      · intro t' e; simp [e]
+      · intro c'; simp only [setThr_obj, setObj_obj]; split <;> simp_all
+      · intro c'; simp only [setThr_obj, setObj_obj]; split <;> simp_all
+      · intro c'; simp only [setThr_obj, setObj_obj]; split <;> simp_all [Conn.both]
+      · rfl
+      · rfl
+      · rfl
+      · rfl
+      · rfl
+      · rfl
+      · exact ⟨[], rfl, by simp⟩
+      · simp
+      · intro c' hp'
+        simp only [pointsTo, setThr_thr, if_true, ptr_rm2, Option.some.injEq] at hp'
+        rcases hp' with e | ⟨l, e1, e2⟩
+        · subst e; exact h.n3 t c (Or.inl hptr)
+        · exact h.n3 t c' (Or.inr ⟨l, e1, e2⟩)
+      · simp
+      · simp
+      · simp
+      · simp
+    · exact hadv
+
+/-- The loop of a Flush* visit over the halves `hs`, from an intermediate state `s1` (in which `t` owns
+    `c.mu`; InvN does not mention the mutexes). -/
+theorem invN_flushHalves (t : Tid) (c : CId) (hs : List Bool) :
+    ∀ (s1 : State), InvN s1 → c < s1.nextC → (s1.obj c).stream ≠ none →
+    (s1.thr t).pc.ptr = some c → (∀ sid, (s1.thr t).pc ≠ .ins sid) →
+    (∀ t', t' ≠ t → (s1.thr t').pc.holds ≠ some c) → InvN (flushHalves s1 t c hs) := by
+  induction hs with
+  | nil =>
+    intro s1 h hc hst hptr hnoins hexcl
+    exact invN_flushEnd h t c hptr
+  | cons hb hs ih =>
+    intro s1 h hc hst hptr hnoins hexcl
+    have hpt : pointsTo (s1.thr t) c := Or.inl hptr
+    unfold flushHalves
+    dsimp only
+    split
+    · exact ih s1 h hc hst hptr hnoins hexcl
+    · next hopen0 =>
+      have hopen : (s1.obj c).halfClosed hb = false := by simpa using hopen0
+      have hcl : (s1.obj c).both = false := both_false_of_half hopen
+      have hin : inMap s1 c := inMap_of_open h hpt hcl
+      split
+      · -- deliver the queued page
+        cases hst2 : (s1.obj c).stream with
+        | none => exact absurd hst2 hst
+        | some sid =>
+          dsimp only
+          apply h.frame_benign t
+          · intro t' e; simp [e]
+          · intro c'; simp only [setThr_obj, addLog_obj, setObj_obj]; split <;> simp_all [setQ_key]
+          · intro c'; simp only [setThr_obj, addLog_obj, setObj_obj]; split <;> simp_all [setQ_stream]
+          · intro c'; simp only [setThr_obj, addLog_obj, setObj_obj]; split <;> simp_all [setQ_both]
+          · rfl
+          · rfl
+          · rfl
+          · rfl
+          · rfl
+          · rfl
+          · exact ⟨[_], rfl, by simp [BenignEv]⟩
+          · simp
+          · intro c' hp'
+            simp only [pointsTo, setThr_thr, if_true, ptr_cb, Option.some.injEq] at hp'
+            rcases hp' with e | ⟨l, e1, e2⟩
+            · subst e; exact Or.inl hin
+            · exact h.n3 t c' (Or.inr ⟨l, e1, e2⟩)
+          · simp
+          · intro c' e; simp at e; subst e; exact hin
+          · intro c' hb' f e; simp at e; rw [← e.1]; exact hcl
+          · simp
+      · split
+        · split
+          · next hboth' =>
+            cases hst2 : (s1.obj c).stream with
+            | none => exact absurd hst2 hst
+            | some sid =>
+              dsimp only
+              apply invN_close h t c sid hc hst2 hcl hin hnoins hexcl
+              · intro t' e; simp [e]
+              · simp; rfl
+              · simp
+              · intro c' e; simp [e]
+              · simp [closeHalf_key]
+              · simp [closeHalf_stream]
+              · simpa [bothClosed_eq] using hboth'
+              · rfl
+              · rfl
+              · rfl
+              · rfl
+              · rfl
+              · rfl
+              · rfl
+          · next hboth' =>
+            have hb2 : ((s1.obj c).closeHalf hb).both = false := by simpa [bothClosed_eq] using hboth'
+            apply ih (setObj s1 c ((s1.obj c).closeHalf hb))
+            · exact invN_setObj h t c _ hnoins (closeHalf_key _ _) (closeHalf_stream _ _) (by rw [hb2, hcl])
+            · exact hc
+            · simp [closeHalf_stream, hst]
+            · exact hptr
+            · exact hnoins
+            · exact hexcl
+        · exact ih s1 h hc hst hptr hnoins hexcl
+
+theorem flushHalves_both (t : Tid) (c : CId) (hs : List Bool) (s : State) (hb : (s.obj c).both = true) :
+    flushHalves s t c hs = flushEnd s t c := by
+  induction hs with
+  | nil => rfl
+  | cons hb' hs ih =>
+    unfold flushHalves
+    dsimp only
+    have : (s.obj c).halfClosed hb' = true := by
+      cases hb' <;> simp_all [Conn.both, Conn.halfClosed]
+    rw [if_pos this]; exact ih
+
 theorem invN_stepLock {s s' : State} {t : Tid} {c : CId} {hb : Bool} (hA : InvA s) (h : InvN s)
     (hpc : (s.thr t).pc = .lock c hb) (hs : stepLock s t c hb = some s') : InvN s' := by
   have hc : c < s.nextC := hA.ptr_lt t c (by simp [hpc])
@@ -984,38 +1191,18 @@ theorem invN_stepLock {s s' : State} {t : Tid} {c : CId} {hb : Bool} (hA : InvA 
       | none => rfl
       | some x => simp [hm] at hmu0
     have hexcl := excl_of_mu hA (t := t) (Or.inl hmu)
-    have hinmap : (s.obj c).both = false → inMap s c := by
-      intro hcl
-      rcases h.n3 t c hpt with h1 | h1
-      · exact h1
-      · have := h.n2 c h1; rw [hcl] at this; cases this
+    have hinmap : (s.obj c).both = false → inMap s c := inMap_of_open h hpt
     cases hsn : (s.thr t).snap with
     | some l =>
       simp only [hsn] at hs
-      split at hs
-      · cases hs
-        exact invN_advance h t rfl (fun _ => rfl) (fun _ => rfl) (fun _ => rfl) rfl rfl rfl rfl rfl rfl ⟨[], rfl, by simp⟩
-      · next hcl0 =>
-        have hcl : (s.obj c).both = false := by simpa [Conn.both] using hcl0
-        cases hst2 : (s.obj c).stream with
-        | none => exact absurd hst2 hst
-        | some sid =>
-          simp only [afterCloseHalf, setObj_obj, if_true, Bool.and_self, hst2] at hs; cases hs
-          apply invN_close h t c sid hc hst2 hcl (hinmap hcl) hnoins hexcl
-          · intro t' e; simp [e]
-          · simp
-          · simp [hsn]
-          · intro c' e; simp [e]
-          · simp
-          · simp [hst2]
-          · simp [Conn.both]
-          · rfl
-          · rfl
-          · rfl
-          · rfl
-          · rfl
-          · rfl
-          · rfl
+      cases hs
+      apply invN_flushHalves t c [true, false]
+      · exact invN_setObj h t c _ hnoins rfl rfl rfl
+      · exact hc
+      · simpa using hst
+      · simp [hpc]
+      · simpa using hnoins
+      · simpa using hexcl
     | none =>
       have hpk := hA.wf_ptr t c (by simp [hpc]) hsn
       have hn4 := h.n4 t c hb hpc hsn
@@ -1025,6 +1212,7 @@ theorem invN_stepLock {s s' : State} {t : Tid} {c : CId} {hb : Bool} (hA : InvA 
       | cons op rest =>
         cases op with
         | flush => simp [hp, isPkt] at hpk
+        | flushold T ca => simp [hp, isPkt] at hpk
         | pkt k kind =>
           have hkk : halfKey (s.obj c).key hb = k := by
             rw [hp, headKey_pkt] at hn4; exact (Option.some.inj hn4).symm
@@ -1042,9 +1230,9 @@ theorem invN_stepLock {s s' : State} {t : Tid} {c : CId} {hb : Bool} (hA : InvA 
             · cases hs
               apply invN_advance h t
               · rfl
-              · intro c'; rfl
-              · intro c'; rfl
-              · intro c'; rfl
+              · intro c'; simp only [addLog_obj, setObj_obj]; split <;> simp_all [see_key]
+              · intro c'; simp only [addLog_obj, setObj_obj]; split <;> simp_all [see_stream]
+              · intro c'; simp only [addLog_obj, setObj_obj]; split <;> simp_all [see_both]
               · rfl
               · rfl
               · rfl
@@ -1053,36 +1241,58 @@ theorem invN_stepLock {s s' : State} {t : Tid} {c : CId} {hb : Bool} (hA : InvA 
               · rfl
               · exact ⟨[_], rfl, by simp [BenignEv]⟩
             · next hhc0 =>
-              have hhc : (s.obj c).halfClosed hb = false := by simpa using hhc0
+              have hhc : (s.obj c).halfClosed hb = false := by simpa [see_halfClosed] using hhc0
               have hcl := both_false_of_half hhc
-              cases hs
-              apply h.frame_benign t
-              · intro t' e; simp [e]
-              · intro c'; simp only [setThr_obj, addLog_obj, setObj_obj]; split <;> simp_all
-              · intro c'; simp only [setThr_obj, addLog_obj, setObj_obj]; split <;> simp_all
-              · intro c'; simp only [setThr_obj, addLog_obj, setObj_obj]; split <;> simp_all [Conn.both]
-              · rfl
-              · rfl
-              · rfl
-              · rfl
-              · rfl
-              · rfl
-              · refine ⟨[_, _], rfl, ?_⟩
-                intro e he
-                simp only [List.mem_cons, List.not_mem_nil, or_false] at he
-                rcases he with e1 | e1
-                · subst e1; simpa [BenignEv] using hben
-                · subst e1; simp [BenignEv]
-              · simp
-              · intro c' hp'
-                simp only [pointsTo, setThr_thr, if_true, ptr_cb, Option.some.injEq, hsn] at hp'
-                rcases hp' with e | ⟨l, e, _⟩
-                · subst e; exact Or.inl (hinmap hcl)
-                · cases e
-              · simp
-              · intro c' e; simp at e; subst e; exact hinmap hcl
-              · intro c' hb' f e; simp at e; rw [← e.1]; exact hcl
-              · simp
+              split at hs
+              · -- late: queued
+                cases hs
+                apply invN_advance h t
+                · rfl
+                · intro c'; simp only [addLog_obj, setObj_obj]; split <;> simp_all [see_key, setQ_key]
+                · intro c'; simp only [addLog_obj, setObj_obj]; split <;> simp_all [see_stream, setQ_stream]
+                · intro c'; simp only [addLog_obj, setObj_obj]; split <;> simp_all [see_both, setQ_both]
+                · rfl
+                · rfl
+                · rfl
+                · rfl
+                · rfl
+                · rfl
+                · refine ⟨[_, _], rfl, ?_⟩
+                  intro e he
+                  simp only [List.mem_cons, List.not_mem_nil, or_false] at he
+                  rcases he with e1 | e1
+                  · subst e1; simpa [BenignEv] using hben
+                  · subst e1; simp [BenignEv]
+              · cases hs
+                apply h.frame_benign t
+                · intro t' e; simp [e]
+                · intro c'; simp only [setThr_obj, addLog_obj, setObj_obj]; split <;> simp_all [see_key]
+                · intro c'; simp only [setThr_obj, addLog_obj, setObj_obj]; split <;> simp_all [see_stream]
+                · intro c'; simp only [setThr_obj, addLog_obj, setObj_obj]; split
+                  · next e => subst e; exact see_both _ _ _
+                  · rfl
+                · rfl
+                · rfl
+                · rfl
+                · rfl
+                · rfl
+                · rfl
+                · refine ⟨[_, _], rfl, ?_⟩
+                  intro e he
+                  simp only [List.mem_cons, List.not_mem_nil, or_false] at he
+                  rcases he with e1 | e1
+                  · subst e1; simpa [BenignEv] using hben
+                  · subst e1; simp [BenignEv]
+                · simp
+                · intro c' hp'
+                  simp only [pointsTo, setThr_thr, if_true, ptr_cb, Option.some.injEq, hsn] at hp'
+                  rcases hp' with e | ⟨l, e, _⟩
+                  · subst e; exact Or.inl (hinmap hcl)
+                  · cases e
+                · simp
+                · intro c' e; simp at e; subst e; exact hinmap hcl
+                · intro c' hb' f e; simp at e; rw [← e.1]; exact hcl
+                · simp
 
 theorem invN_stepCb {s s' : State} {t : Tid} {c : CId} {hb fin : Bool} (hA : InvA s) (h : InvN s)
     (hpc : (s.thr t).pc = .cb c hb fin) (hs : stepCb s t c hb fin = some s') : InvN s' := by
@@ -1092,29 +1302,25 @@ theorem invN_stepCb {s s' : State} {t : Tid} {c : CId} {hb fin : Bool} (hA : Inv
   have hst := hA.inited c hc
   have hcl := h.n5a t c hb fin hpc
   have hnoins : ∀ sid', (s.thr t).pc ≠ .ins sid' := by intro sid' e; rw [hpc] at e; cases e
+  have hexcl := excl_of_mu hA (t := t) (Or.inr hmu)
   unfold stepCb at hs
   dsimp only at hs
   split at hs
-  · cases hs
-    unfold afterCloseHalf
-    dsimp only
-    split
+  · -- Flush*
+    split at hs
     · next hboth' =>
-      have hst3 : ((setObj s c ((s.obj c).closeHalf hb)).obj c).stream = (s.obj c).stream := by
-        simp only [setObj_obj, if_true, Conn.closeHalf]; split <;> rfl
       cases hst2 : (s.obj c).stream with
       | none => exact absurd hst2 hst
       | some sid =>
-        rw [hst3, hst2]
-        dsimp only
-        apply invN_close h t c sid hc hst2 hcl (h.n5 t c hh) hnoins (excl_of_mu hA (Or.inr hmu))
+        simp only [hst2] at hs; cases hs
+        apply invN_close h t c sid hc hst2 hcl (h.n5 t c hh) hnoins hexcl
         · intro t' e; simp [e]
-        · simp
+        · simp; rfl
         · simp
         · intro c' e; simp [e]
-        · simp only [setThr_obj, addLog_obj, setObj_obj, if_true, Conn.closeHalf]; split <;> rfl
-        · simp only [setThr_obj, addLog_obj, setObj_obj, if_true, Conn.closeHalf]; split <;> rfl
-        · simpa [Conn.both] using hboth'
+        · simp [closeHalf_key]
+        · simp [closeHalf_stream]
+        · simpa [bothClosed_eq] using hboth'
         · rfl
         · rfl
         · rfl
@@ -1123,22 +1329,68 @@ theorem invN_stepCb {s s' : State} {t : Tid} {c : CId} {hb fin : Bool} (hA : Inv
         · rfl
         · rfl
     · next hboth' =>
+      have hb2 : ((s.obj c).closeHalf hb).both = false := by simpa [bothClosed_eq] using hboth'
+      cases hs
+      apply invN_flushHalves t c _
+      · exact invN_setObj h t c _ hnoins (closeHalf_key _ _) (closeHalf_stream _ _) (by rw [hb2, hcl])
+      · exact hc
+      · simp [closeHalf_stream, hst]
+      · simp [hpc]
+      · simpa using hnoins
+      · simpa using hexcl
+  · split at hs
+    · cases hs
+      unfold afterCloseHalf
+      dsimp only
+      split
+      · next hboth' =>
+        have hst3 : ((setObj s c ((s.obj c).closeHalf hb)).obj c).stream = (s.obj c).stream := by
+          simp [closeHalf_stream]
+        cases hst2 : (s.obj c).stream with
+        | none => exact absurd hst2 hst
+        | some sid =>
+          rw [hst3, hst2]
+          dsimp only
+          apply invN_close h t c sid hc hst2 hcl (h.n5 t c hh) hnoins hexcl
+          · intro t' e; simp [e]
+          · simp; rfl
+          · simp
+          · intro c' e; simp [e]
+          · simp [closeHalf_key]
+          · simp [closeHalf_stream]
+          · simpa [bothClosed_eq] using hboth'
+          · rfl
+          · rfl
+          · rfl
+          · rfl
+          · rfl
+          · rfl
+          · rfl
+      · next hboth' =>
+        have hb2 : ((s.obj c).closeHalf hb).both = false := by simpa [bothClosed_eq] using hboth'
+        apply invN_advance h t
+        · rfl
+        · intro c'; simp only [setObj_obj]; split <;> simp_all [closeHalf_key]
+        · intro c'; simp only [setObj_obj]; split <;> simp_all [closeHalf_stream]
+        · intro c'; simp only [setObj_obj]; split
+          · next e =>
+            subst e
+            show ({ (s.obj c').closeHalf hb with mu := none } : Conn).both = (s.obj c').both
+            rw [hcl]; exact hb2
+          · next e => simp [e]
+        · rfl
+        · rfl
+        · rfl
+        · rfl
+        · rfl
+        · rfl
+        · exact ⟨[], rfl, by simp⟩
+    · cases hs
       apply invN_advance h t
       · rfl
-      · intro c'; simp only [setObj_obj]; split
-        · next e => subst e; simp only [if_true, Conn.closeHalf]; split <;> rfl
-        · next e => simp [e]
-      · intro c'; simp only [setObj_obj]; split
-        · next e => subst e; simp only [if_true, Conn.closeHalf]; split <;> rfl
-        · next e => simp [e]
-      · intro c'; simp only [setObj_obj]; split
-        · next e =>
-          subst e
-          simp only [setObj_obj, if_true] at hboth'
-          have h1 : ((s.obj c').closeHalf hb).both = false := by simpa [Conn.both] using hboth'
-          show ({ (s.obj c').closeHalf hb with mu := none } : Conn).both = (s.obj c').both
-          rw [hcl]; exact h1
-        · next e => simp [e]
+      · intro c'; simp only [setObj_obj]; split <;> simp_all
+      · intro c'; simp only [setObj_obj]; split <;> simp_all
+      · intro c'; simp only [setObj_obj]; split <;> simp_all [Conn.both]
       · rfl
       · rfl
       · rfl
@@ -1146,68 +1398,118 @@ theorem invN_stepCb {s s' : State} {t : Tid} {c : CId} {hb fin : Bool} (hA : Inv
       · rfl
       · rfl
       · exact ⟨[], rfl, by simp⟩
-  · cases hs
-    apply invN_advance h t
-    · rfl
-    · intro c'; simp only [setObj_obj]; split <;> simp_all
-    · intro c'; simp only [setObj_obj]; split <;> simp_all
-    · intro c'; simp only [setObj_obj]; split <;> simp_all [Conn.both]
-    · rfl
-    · rfl
-    · rfl
-    · rfl
-    · rfl
-    · rfl
-    · exact ⟨[], rfl, by simp⟩
 
-theorem invN_stepRm {s s' : State} {t : Tid} {c : CId} (hA : InvA s) (h : InvN s)
-    (hpc : (s.thr t).pc = .rm c) (hs : stepRm s t c = some s') : InvN s' := by
+theorem doRemove_inMap {s : State} {c : CId} (hin : inMap s c) :
+    doRemove s c = { s with conns := s.conns.del (s.obj c).key, free := c :: s.free } := by
+  unfold doRemove; unfold inMap at hin; rw [hin]
+
+theorem invN_stepRm {s s' : State} {t : Tid} {c : CId} {cont : List Bool} (hA : InvA s) (h : InvN s)
+    (hpc : (s.thr t).pc = .rm c cont) (hs : stepRm s t c cont = some s') : InvN s' := by
   have hh : (s.thr t).pc.holds = some c := by simp [hpc]
   have hmu : (s.obj c).mu = some t := (hA.mu_iff c t).2 hh
-  have hin : s.conns.get (s.obj c).key = some c := h.n5 t c hh
+  have hin : inMap s c := h.n5 t c hh
+  have hboth : (s.obj c).both = true := h.n5b t c cont hpc
   unfold stepRm at hs
-  simp only [hin, Option.some.injEq] at hs; cases hs
-  apply invN_remove h t c hpc (excl_of_mu hA (Or.inr hmu))
-  · intro t' e
-    unfold advance; dsimp only; split <;> simp [finishOp, e]
-  · intro c' hp'
-    unfold advance at hp'; dsimp only at hp'
-    split at hp'
-    · next c2 rest hsnap =>
-      simp only [setObj_thr] at hsnap
-      refine ⟨_, hsnap, ?_⟩
-      simp only [pointsTo, setThr_thr, if_true, ptr_lock, Option.some.injEq] at hp'
-      rcases hp' with e | ⟨l, e1, e2⟩
-      · simp [e]
-      · cases e1; simp [e2]
-    · simp [finishOp, pointsTo] at hp'
-  · unfold advance; dsimp only; split <;> simp [finishOp]
-  · intro sid; unfold advance; dsimp only; split <;> simp [finishOp]
-  · intro c' hb'; unfold advance; dsimp only; split <;> simp [finishOp]
-  · intro c'; unfold advance; dsimp only; split <;> (simp only [finishOp, setThr_obj, setObj_obj]; split <;> simp_all)
-  · intro c'; unfold advance; dsimp only; split <;> (simp only [finishOp, setThr_obj, setObj_obj]; split <;> simp_all)
-  · intro c'; unfold advance; dsimp only; split <;> (simp only [finishOp, setThr_obj, setObj_obj]; split <;> simp_all [Conn.both])
-  · unfold advance; dsimp only; split <;> rfl
-  · unfold advance; dsimp only; split <;> rfl
-  · unfold advance; dsimp only; split <;> rfl
-  · unfold advance; dsimp only; split <;> rfl
-  · unfold advance; dsimp only; split <;> rfl
-  · unfold advance; dsimp only; split <;> rfl
-  · unfold advance; dsimp only; split <;> rfl
+  dsimp only at hs
+  rw [doRemove_inMap hin] at hs
+  split at hs
+  · next hsn0 =>
+    obtain ⟨l, hl⟩ : ∃ l, (s.thr t).snap = some l := by
+      cases hq : (s.thr t).snap with
+      | none => simp [hq] at hsn0
+      | some l => exact ⟨l, rfl⟩
+    have e := flushHalves_both t c cont { s with conns := s.conns.del (s.obj c).key, free := c :: s.free } hboth
+    rw [e] at hs
+    cases hs
+    apply invN_remove h t c cont hpc (excl_of_mu hA (Or.inr hmu))
+    · intro t' e
+      unfold flushEnd advance; dsimp only; (repeat' split) <;> simp [finishOp, e]
+    · intro c' hp'
+      unfold flushEnd advance at hp'; dsimp only at hp'
+      (repeat' split at hp')
+      all_goals first
+        | (next c2 rest hsnap =>
+            right
+            simp only [setObj_thr] at hsnap
+            refine ⟨_, hsnap, ?_⟩
+            simp only [pointsTo, setThr_thr, if_true, ptr_lock, Option.some.injEq] at hp'
+            rcases hp' with e | ⟨l', e1, e2⟩
+            · simp [e]
+            · cases e1; simp [e2])
+        | (simp [finishOp, pointsTo] at hp'; done)
+        | (simp only [pointsTo, setThr_thr, if_true, ptr_rm2, Option.some.injEq] at hp'
+           rcases hp' with e | ⟨l', e1, e2⟩
+           · left; exact e.symm
+           · right; exact ⟨l', e1, e2⟩)
+    · unfold flushEnd advance; dsimp only; (repeat' split) <;> simp [finishOp]
+    · intro sid; unfold flushEnd advance; dsimp only; (repeat' split) <;> simp [finishOp]
+    · intro c' hb'; unfold flushEnd advance; dsimp only; (repeat' split) <;> simp [finishOp]
+    · intro c'; unfold flushEnd advance; dsimp only; (repeat' split) <;> (simp only [finishOp, setThr_obj, setObj_obj]; split <;> simp_all)
+    · intro c'; unfold flushEnd advance; dsimp only; (repeat' split) <;> (simp only [finishOp, setThr_obj, setObj_obj]; split <;> simp_all)
+    · intro c'; unfold flushEnd advance; dsimp only; (repeat' split) <;> (simp only [finishOp, setThr_obj, setObj_obj]; split <;> simp_all [Conn.both])
+    · unfold flushEnd advance; dsimp only; (repeat' split) <;> rfl
+    · unfold flushEnd advance; dsimp only; (repeat' split) <;> rfl
+    · unfold flushEnd advance; dsimp only; (repeat' split) <;> rfl
+    · unfold flushEnd advance; dsimp only; (repeat' split) <;> rfl
+    · unfold flushEnd advance; dsimp only; (repeat' split) <;> rfl
+    · unfold flushEnd advance; dsimp only; (repeat' split) <;> rfl
+    · unfold flushEnd advance; dsimp only; (repeat' split) <;> rfl
+  · cases hs
+    apply invN_remove h t c cont hpc (excl_of_mu hA (Or.inr hmu))
+    · intro t' e
+      unfold advance; dsimp only; split <;> simp [finishOp, e]
+    · intro c' hp'
+      right
+      unfold advance at hp'; dsimp only at hp'
+      split at hp'
+      · next c2 rest hsnap =>
+        simp only [setObj_thr] at hsnap
+        refine ⟨_, hsnap, ?_⟩
+        simp only [pointsTo, setThr_thr, if_true, ptr_lock, Option.some.injEq] at hp'
+        rcases hp' with e | ⟨l, e1, e2⟩
+        · simp [e]
+        · cases e1; simp [e2]
+      · simp [finishOp, pointsTo] at hp'
+    · unfold advance; dsimp only; split <;> simp [finishOp]
+    · intro sid; unfold advance; dsimp only; split <;> simp [finishOp]
+    · intro c' hb'; unfold advance; dsimp only; split <;> simp [finishOp]
+    · intro c'; unfold advance; dsimp only; split <;> (simp only [finishOp, setThr_obj, setObj_obj]; split <;> simp_all)
+    · intro c'; unfold advance; dsimp only; split <;> (simp only [finishOp, setThr_obj, setObj_obj]; split <;> simp_all)
+    · intro c'; unfold advance; dsimp only; split <;> (simp only [finishOp, setThr_obj, setObj_obj]; split <;> simp_all [Conn.both])
+    · unfold advance; dsimp only; split <;> rfl
+    · unfold advance; dsimp only; split <;> rfl
+    · unfold advance; dsimp only; split <;> rfl
+    · unfold advance; dsimp only; split <;> rfl
+    · unfold advance; dsimp only; split <;> rfl
+    · unfold advance; dsimp only; split <;> rfl
+    · unfold advance; dsimp only; split <;> rfl
+
+theorem invN_stepRm2 {s s' : State} {t : Tid} {c : CId} (h : InvN s) (hok : ¬ ForeignRemove s t)
+    (hpc : (s.thr t).pc = .rm2 c) (hs : stepRm2 s t c = some s') : InvN s' := by
+  have hnone : s.conns.get (s.obj c).key = none := by
+    cases hg : s.conns.get (s.obj c).key with
+    | none => rfl
+    | some c' => exact absurd ⟨c, hpc, by simp [hg]⟩ hok
+  have hrm : doRemove s c = s := by unfold doRemove; rw [hnone]
+  unfold stepRm2 at hs
+  rw [hrm] at hs
+  cases hs
+  exact invN_advance h t rfl (fun _ => rfl) (fun _ => rfl) (fun _ => rfl) rfl rfl rfl rfl rfl rfl ⟨[], rfl, by simp⟩
 
 theorem invN_step {s s' : State} {t : Tid} (hA : InvA s) (hK : (KMap.keys s.conns).Nodup) (h : InvN s)
-    (hok : NoStale s t) (hs : step true s t = some s') : InvN s' := by
+    (hok : Clean s t) (hs : step true s t = some s') : InvN s' := by
   unfold step at hs
   split at hs
   · next hpc => exact invN_stepStart hK h hpc hs
-  · next sid hpc => exact invN_stepIns hA h hok hpc hs
+  · next sid hpc => exact invN_stepIns hA h hok.1 hpc hs
   · next c hb hpc => exact invN_stepLock hA h hpc hs
   · next c hb fin hpc => exact invN_stepCb hA h hpc hs
-  · next c hpc => exact invN_stepRm hA h hpc hs
+  · next c cont hpc => exact invN_stepRm hA h hpc hs
+  · next c hpc => exact invN_stepRm2 h hok.2 hpc hs
   · cases hs
 
-/-- InvN holds along every execution of the fixed pool without stale recycling. -/
-theorem invN_reachableR (progs : Tid → List Op) : ∀ s, (sys true progs).ReachableR NoStale s → InvN s := by
+/-- InvN holds along every execution of the fixed pool without stale recycling and without foreign removes. -/
+theorem invN_reachableR (progs : Tid → List Op) : ∀ s, (sys true progs).ReachableR Clean s → InvN s := by
   intro s hr
   have key : InvN s ∧ (sys true progs).Reachable s := by
     induction hr with
@@ -1225,10 +1527,19 @@ def KeptOnce (s : State) : Prop :=
 def noRecycleB (s : State) (t : Tid) : Bool :=
   match (s.thr t).pc with
   | .ins _ => s.free.isEmpty
+  | .rm2 c => (s.conns.get (s.obj c).key).isNone
   | _ => true
 
 theorem noStale_of_noRecycleB (s : State) (t : Tid) (h : noRecycleB s t = true) : NoStale s t := by
   intro ⟨sid, c, f, hpc, hf, _⟩
   simp [noRecycleB, hpc, hf] at h
+
+theorem clean_of_noRecycleB (s : State) (t : Tid) (h : noRecycleB s t = true) : Clean s t := by
+  refine ⟨noStale_of_noRecycleB s t h, ?_⟩
+  intro ⟨c, hpc, hg⟩
+  simp only [noRecycleB, hpc] at h
+  cases hq : s.conns.get (s.obj c).key with
+  | none => exact hg hq
+  | some x => simp [hq] at h
 
 end Gp.Pool.Reasm
